@@ -256,6 +256,10 @@ RULES = {
   L('add_inner_loop', 'src/rculfhash.c', '_cds_lfht_add', 'for', 2, 'lfht_add', count=2),
   L('gc_inner_loop', 'src/rculfhash.c', '_cds_lfht_gc_bucket', 'for', 2, 'lfht_gc', count=2),
  ],
+ 'lfht_partition': [
+  L('populate_partition_loop', 'src/rculfhash.c', 'init_table_populate_partition', 'for', 1, 'populate_partition', count=1),
+  L('remove_partition_loop', 'src/rculfhash.c', 'remove_table_partition', 'for', 1, 'remove_partition', count=1),
+ ],
  'lfht_api': [
   L('add_replace_loop', 'src/rculfhash.c', 'cds_lfht_add_replace', 'for', 1, 'lfht_add_replace', count=1),
  ],
